@@ -392,6 +392,13 @@ struct FOut {
     /// the same through iterators whose size_hint is (0, None) / (k < N, None)
     from_samples_nohint: Option<Vec<Val>>,
     from_samples_lowhint: Option<Vec<Val>>,
+    /// polls made on an iterator that counts them and yields items again after its first None
+    from_samples_polls: usize,
+    from_samples_revive_is_some: bool,
+    /// len() of the channels() iterator after it returned None, and again after a further next()
+    channels_len_after_end: Vec<usize>,
+    /// len() before each next()
+    channels_len_before: Vec<usize>,
     channels: Vec<Val>,
     /// positional use of the channels() iterator: nth(k) then the rest, skip(k), step_by(2)
     channels_nth: Vec<(usize, Option<Val>, Vec<Val>)>,
@@ -424,6 +431,7 @@ where
     <F::Sample as Sample>::Float: Fmt,
     F::Signed: FrameX,
     F::Float: FrameX,
+    F::Channels: ExactSizeIterator,
 {
     let k = <F::Sample as Fmt>::KIND;
     let sk = k.signed_companion();
@@ -474,9 +482,37 @@ where
         out.from_samples_nohint = F::from_samples(&mut mk(0)).map(|fr| fr.to_vals());
         out.from_samples_lowhint = F::from_samples(&mut mk(c.iter_len.min(n.saturating_sub(1)))).map(|fr| fr.to_vals());
     }
+    {
+        // a non-fused iterator that counts how often it is polled
+        struct Revive<S> {
+            left: usize,
+            dead: bool,
+            polls: usize,
+            item: S,
+        }
+        impl<S: Copy> Iterator for Revive<S> {
+            type Item = S;
+            fn next(&mut self) -> Option<S> {
+                self.polls += 1;
+                if self.left > 0 {
+                    self.left -= 1;
+                    Some(self.item)
+                } else if !self.dead {
+                    self.dead = true;
+                    None
+                } else {
+                    Some(self.item)
+                }
+            }
+        }
+        let mut it = Revive { left: c.iter_len, dead: false, polls: 0, item: <F::Sample as Fmt>::from_val(chans[0]) };
+        out.from_samples_revive_is_some = F::from_samples(&mut it).is_some();
+        out.from_samples_polls = it.polls;
+    }
     // channels
     let mut it = f.channels();
     loop {
+        out.channels_len_before.push(it.len());
         match it.next() {
             Some(s) => out.channels.push(s.to_val()),
             None => break,
@@ -485,6 +521,9 @@ where
             break;
         }
     }
+    out.channels_len_after_end.push(it.len());
+    let _ = it.next();
+    out.channels_len_after_end.push(it.len());
     for k in [0usize, 1, n / 2, n.saturating_sub(1), n, n + 2] {
         let mut it = f.channels();
         let got = it.nth(k).map(|s| s.to_val());
@@ -569,6 +608,7 @@ where
     <S as Sample>::Float: Fmt,
     <S as Frame>::Signed: FrameX,
     <S as Frame>::Float: FrameX,
+    <S as Frame>::Channels: ExactSizeIterator,
 {
     frame_ops::<S>(c)
 }
@@ -666,7 +706,17 @@ pub fn check_frame(c: &FCase, st: &mut Stats) -> CheckResult {
         ensure!(out.from_samples_nohint.is_none() && out.from_samples_lowhint.is_none(), "{}: from_samples returned Some on a short iterator with an open-ended size_hint", what);
         ensure!(out.from_samples.is_none(), "{}: from_samples returned Some on an iterator of only {} items", what, c.iter_len);
     }
+    // from_samples takes exactly N items, and gives up at the first None without polling the iterator again
+    let exp_polls = if c.iter_len >= n { n } else { c.iter_len + 1 };
+    ensure!(out.from_samples_revive_is_some == (c.iter_len >= n), "{}: from_samples over an iterator that ends after {} items returned {}", what, c.iter_len, if out.from_samples_revive_is_some { "Some" } else { "None" });
+    ensure!(out.from_samples_polls == exp_polls, "{}: from_samples polled an iterator of {} items {} times, expected {} (N items, or up to and including the first None)", what, c.iter_len, out.from_samples_polls, exp_polls);
     ensure!(veq_vec(&out.channels, &chans), "{}: channels() yielded {:?}, expected {:?}", what, out.channels, chans);
+    for (j, len) in out.channels_len_before.iter().enumerate() {
+        ensure!(*len == n.saturating_sub(j), "{}: channels().len() = {} after {} of {} channels were yielded", what, len, j, n);
+    }
+    for (j, len) in out.channels_len_after_end.iter().enumerate() {
+        ensure!(*len == 0, "{}: the exhausted channels() iterator reports len() = {}{}", what, len, if j == 1 { " after a further next()" } else { "" });
+    }
     for (k, got, rest) in &out.channels_nth {
         let exp = chans.get(*k).copied();
         let same = match (got, exp) {
